@@ -14,7 +14,7 @@ import contextlib
 FIX_MERGE = "merge_single_pass"          # _merge_sets leaves groups that share a member
 FIX_ATTACHED = "attached_single"         # _find_neighbouring: single attached to a candidate never meets other singles
 FIX_SCAN = "candidate_scan_start"        # bisect start index skips earlier candidates that still overlap
-FIX_CROSS = "cross_origin_partial_group"  # _find_cross_origin_interleaved groups only part of a candidate
+FIX_CROSS = "cross_origin_partial_group"  # _find_cross_origin_interleaved emits part of a candidate as a group
 ALL_FIXES = (FIX_MERGE, FIX_ATTACHED, FIX_SCAN, FIX_CROSS)
 
 
@@ -50,7 +50,7 @@ def _make_find_cross_origin_interleaved(formation):
         core_group = set()
         for candidate in candidates:
             if candidate.core_crosses_origin():
-                core_group.update(candidate.protoclusters)   # CHANGED: the whole candidate, not its crossing members
+                core_group.update([proto for proto in candidate.protoclusters if proto.core_location.crosses_origin()])
         assert core_group
         for direction in [-1, 1]:
             index = 0 if direction == 1 else -1
@@ -63,7 +63,7 @@ def _make_find_cross_origin_interleaved(formation):
                 index += direction
         if any(core_group == set(candidate.protoclusters) for candidate in candidates):
             return set()
-        if len(core_group) > 1:
+        if found and len(core_group) > 1:            # CHANGED: only when something actually joined
             existing_groups.append(core_group)
         return found
     return _find_cross_origin_interleaved
